@@ -25,7 +25,7 @@ Definition view_of (e : E) (accepted : bool) (ntrace : nat) : view :=
      v_clocks := [ptime e; rtime e; btime e; stime e];
      v_reg := map i_name (reg e); v_uods := map (fun c => (c_name c, c_id c)) (uods e);
      v_exe := map r_id (exe e); v_que := map r_id (que e);
-     v_events := filter (fun x => match x with EStarted _ | EStoppedRun => false | _ => true end) (skipn ntrace (trace e)) |}.
+     v_events := skipn ntrace (trace e) |}.
 
 Fixpoint run_ops (c : cfg) (e : E) (os : list op) : output :=
   match os with
@@ -64,8 +64,13 @@ Definition ev_eqb (a b : ev) : bool :=
   | EUExec n i k, EUExec n' i' k' => Nat.eqb n n' && Nat.eqb i i' && (k =? k')
   | EUFinal n i, EUFinal n' i' => Nat.eqb n n' && Nat.eqb i i'
   | EHwWrite v, EHwWrite v' => list_eqb Z.eqb v v'
-  | EStarted r, EStarted r' => Nat.eqb r r'
+  | EStarted r, EStarted r' => true          (* run ids are compared in v_run, canonically *)
+  | EPause a c, EPause a' c' => Bool.eqb a a' && list_eqb nz_eqb c c'
+  | EUnpause r, EUnpause r' => option_eqb (list_eqb nz_eqb) r r'
   | EStoppedRun, EStoppedRun => true
+  | EOut u i v, EOut u' i' v' => Bool.eqb u u' && Nat.eqb i i' && (v =? v')
+  | EError, EError => true
+  | EClock s d b a, EClock s' d' b' a' => sys_eqb s s' && (d =? d') && list_eqb Z.eqb b b' && list_eqb Z.eqb a a'
   | _, _ => false
   end.
 Definition view_eqb (a b : view) : bool :=
